@@ -174,7 +174,7 @@ def main(run):
         if kind == 'helgrind':
             cmd = ['valgrind', '--tool=helgrind', '-q', '--log-file=%s.hg' % logp] + cmd
         try:
-            p = subprocess.run(cmd, env=env, stdout=subprocess.PIPE, stderr=subprocess.DEVNULL, timeout=3000)
+            p = subprocess.run(cmd, env=env, stdout=subprocess.PIPE, stderr=subprocess.DEVNULL, timeout=1200 if q else 3000)
             return job, logp, p.returncode, p.stdout
         except subprocess.TimeoutExpired:
             return job, logp, 'timeout', b''
@@ -183,7 +183,24 @@ def main(run):
         results = list(ex.map(execute, sched))
     for (exe, kind, T, iters, mode, seed), logp, rc, stdout in results:
         if rc == 'timeout':
+            # no verdict from this execution - but what the race detector wrote before the watchdog fired is still evidence
             run.inconclusive_because('stress harness watchdog: %s T=%d' % (kind, T))
+            if kind == 'tsan':
+                tl = ''
+                for fn in sorted(os.listdir(run.workdir)):
+                    if fn.startswith(os.path.basename(logp) + '.'):
+                        with open(os.path.join(run.workdir, fn), errors='replace') as f:
+                            tl += f.read()
+                for rkind, frames, blk in tsan_reports(tl):
+                    total_reports += 1
+                    if not frames:
+                        non_library_reports += 1
+                        continue
+                    sig = (rkind, tuple(sorted(set(frames[:2]))))
+                    if sig not in dedup:
+                        dedup[sig] = blk
+                        run.violation('C20:tsan:%s:%s' % (rkind, '|'.join(sig[1])), dict(sanitizer=kind, threads=T, seed=seed, mode=mode, report=blk[:6000],
+                                                                                       note='execution stopped by the watchdog'))
             continue
         logs = ''
         for fn in sorted(os.listdir(run.workdir)):
